@@ -414,7 +414,7 @@ func smtSym(s string) string {
 	var b strings.Builder
 	for _, c := range s {
 		switch {
-		case c >= 'a' && c <= 'z', c >= 'A' && c <= 'Z', c >= '0' && c <= '9', c == '_', c == '.', c == '$', c == '!', c == '#', c == '@':
+		case c >= 'a' && c <= 'z', c >= 'A' && c <= 'Z', c >= '0' && c <= '9', c == '_', c == '.', c == '$', c == '!':
 			b.WriteRune(c)
 		default:
 			fmt.Fprintf(&b, "_%x_", c)
